@@ -198,8 +198,18 @@ class G20(G):
             self.feat.add("epsilon")
         rec["discrete_time"] = r.random() < 0.3
         rec["self_overlapping"] = r.random() < 0.3
-        if r.random() < 0.4:
+        x = r.random()
+        if x < 0.35:
             rec["metric"] = {"kind": "makespan"}
+        elif x < 0.6:
+            rec.pop("metric", None)
+            tm = []
+            for _ in range(r.choice([1, 2])):
+                k = r.choice(["point", "closed", "open", "lopen", "ropen"])
+                iv = ["point", self.global_timing()] if k == "point" else [k, ["gstart", self.delay("+")], ["gend", "0"]]
+                tm.append([iv, self.boolean(1, {}), r.choice(["1", "5", "-2", "7/3", "1/1000000007"])])
+            rec["tmetric"] = tm
+            self.feat.add("temporal-oversubscription")
         return rec
 
     # ---- htn ------------------------------------------------------------------------------------
@@ -624,6 +634,14 @@ def build_problem(rec, env):
         build_htn(rec, pb, _ctx20(ctx))
     else:
         pb, ctx = R.instantiate_problem(rec, env)
+    if rec.get("tmetric"):
+        from unified_planning.model.metrics import TemporalOversubscription
+
+        goals = {}
+        for iv, g, w in rec["tmetric"]:
+            w = Fraction(w)
+            goals[(interval20(iv), ctx.expr(g))] = int(w) if w.denominator == 1 else w
+        pb.add_quality_metric(TemporalOversubscription(goals, env))
     if rec.get("discrete_time"):
         pb.discrete_time = True
     if rec.get("self_overlapping"):
@@ -801,9 +819,9 @@ def gen_plan(pb, rng):
     feats.add("plan:time-triggered")
     items = []
     for ai in insts:
-        st = Fraction(rng.choice(["0", "1", "1/2", "101/100", "7/3", str(2**40), f"{BIG}/7"]))
+        st = Fraction(rng.choice(["0", "1", "1/2", "101/100", "7/3", str(2**40), f"{2**58}/7"]))
         if isinstance(ai.action, DurativeAction):
-            du = Fraction(rng.choice(["1", "1/3", "5", "22/7", str(2**40), f"{BIG}/5"]))
+            du = Fraction(rng.choice(["1", "1/3", "5", "22/7", str(2**40), f"{2**58 + 1}/7"]))
             if du.denominator != 1:
                 feats.add("plan:rational-duration")
         else:
